@@ -100,7 +100,7 @@ def build(ctx):
 def sizes(ctx):
     if ctx.tier == "quick":
         return {"lua_hist": 900, "maxops": 30, "lua_fn": 800, "programs": 130, "trigger": 10, "fn_programs": 12}
-    return {"lua_hist": 60000, "maxops": 200, "lua_fn": 20000, "programs": 3000, "trigger": 150, "fn_programs": 200}
+    return {"lua_hist": 12000, "maxops": 200, "lua_fn": 20000, "programs": 2000, "trigger": 150, "fn_programs": 200}
 
 
 # ---- generation -------------------------------------------------------------------------------------------
@@ -113,7 +113,7 @@ def gen_lua_histories(ctx, n, maxops):
     strs = H.STRS_SAFE + H.STRS_LUA_ONLY
     hs = []
     for i in range(n):
-        k = r.randint(1, maxops if r.random() < 0.3 else min(maxops, 30))
+        k = r.randint(1, maxops if r.random() < 0.03 else min(maxops, 30))     # long histories are slow under LuaCore
         x = i % 3
         if x == 0:
             hs.append(H.gen_list_history(r, k, strs=strs, preamble_only=True, negative_set=True, geteq="any"))
@@ -160,7 +160,7 @@ def gen_e2e(ctx, nprog, maxops, ntrigger, salt="c18-e2e"):
     r = vlib.rng(ctx.seed, salt)
     out = []
     for i in range(nprog):
-        k = r.randint(1, min(maxops, 30) if r.random() < 0.8 else maxops)
+        k = r.randint(1, min(maxops, 30) if r.random() < 0.97 else maxops)
         x = i % 3
         if x == 0:
             out.append((H.gen_list_history(r, k, geteq="just"), "clean"))
